@@ -130,6 +130,9 @@ func (e Env) Sum(xs ...int) int {
 	return s
 }
 func (e Env) Half(f float64) float64 { return f / 2 }
+func (e Env) H32(f float32) float32  { return f / 2 }
+func (e Env) I8fn(n int8) int8       { return n }
+func (e Env) U16fn(n uint16) uint16  { return n }
 func (e Env) Len2(xs []int) int      { return len(xs) * 2 }
 
 // Pure functions (results depend on the arguments only): candidates for ConstExpr marking (C02).
